@@ -1210,6 +1210,27 @@ func checkC14(c *ctx) {
 	main.batch.flush("C14.reader", 8)
 	lap("reader-style histories")
 
+	// ---- large capacities (seed C14-7: Random's bounded victim search behaves as before up to 17 entries):
+	// capacities 18, 32, 64, full most of the time, few unused blocks among many used ones
+	nLarge := 360
+	if c.thorough() {
+		nLarge = 6000
+	}
+	for i := 0; i < nLarge; i++ {
+		in := c14GenLarge(c.rnd)
+		r := c14Seq(main, in, false)
+		res.eval(in.Kind+fmt.Sprint(in.Cap)+strings.Join(in.Ops, " "), c14Nontrivial(in.Ops))
+		res.hist(fmt.Sprintf("large capacity %d: %s", in.Cap, c14KindName[in.Kind]))
+		if i < 1 {
+			res.sample(in)
+		}
+		if r != nil {
+			main.batch.add(in, r)
+		}
+	}
+	main.batch.flush("C14.large", 8)
+	lap("large-capacity histories")
+
 	// ---- histories in which blocks are overwritten while a cache indexes them (not reader style)
 	nAbuse := 8000
 	if c.thorough() {
@@ -1544,6 +1565,63 @@ func c14GenReader(rnd *Rand) c14Input {
 		case x < 92 && !strings.HasPrefix(in.Kind, "S"):
 			in.Ops = append(in.Ops, fmt.Sprintf("r%d", rnd.rng(1, 4)))
 		case x < 95 && !strings.HasPrefix(in.Kind, "S"):
+			in.Ops = append(in.Ops, fmt.Sprintf("f%d", rnd.rng(1, 3)))
+		case strings.HasPrefix(in.Kind, "S"):
+			in.Ops = append(in.Ops, "s")
+		default:
+			in.Ops = append(in.Ops, "c")
+		}
+	}
+	return in
+}
+
+// c14GenLarge: reader-style histories on caches of capacity 18, 32 or 64 that are kept full of used blocks with a
+// few unused ones among them, so that most Puts of a used block have to choose a victim while an unused block is held.
+func c14GenLarge(rnd *Rand) c14Input {
+	kinds := []string{"R", "SR", "R", "L", "F", "SL", "R", "SF"}
+	caps := []int{18, 32, 64}
+	in := c14Input{Mode: "reader", Kind: kinds[rnd.intn(len(kinds))], Cap: caps[rnd.intn(len(caps))]}
+	nb := in.Cap + rnd.rng(4, 12)
+	base := func() int { return 100 * rnd.intn(nb) }
+	sel := func(used bool) int {
+		s := rnd.intn(7) + 28*rnd.intn(30)
+		if used {
+			s += 7 * rnd.rng(1, 3)
+		}
+		return s
+	}
+	// fill: one used block per base, a few unused ones
+	order := make([]int, nb)
+	for i := range order {
+		order[i] = i
+	}
+	for i := nb - 1; i > 0; i-- {
+		j := rnd.intn(i + 1)
+		order[i], order[j] = order[j], order[i]
+	}
+	for _, k := range order {
+		in.Ops = append(in.Ops, fmt.Sprintf("q%d,%d,0", sel(!rnd.coin(1, 10)), 100*k))
+	}
+	n := rnd.rng(in.Cap, 3*in.Cap)
+	for i := 0; i < n; i++ {
+		switch x := rnd.intn(100); {
+		case x < 60:
+			mode := 0
+			if rnd.coin(1, 2) {
+				mode = rnd.rng(1, 2)
+			}
+			in.Ops = append(in.Ops, fmt.Sprintf("q%d,%d,%d", sel(!rnd.coin(1, 12)), base(), mode))
+		case x < 80:
+			in.Ops = append(in.Ops, fmt.Sprintf("g%d", base()))
+		case x < 86:
+			in.Ops = append(in.Ops, fmt.Sprintf("k%d", base()))
+		case x < 89:
+			in.Ops = append(in.Ops, "l")
+		case x < 92 && !strings.HasPrefix(in.Kind, "S"):
+			in.Ops = append(in.Ops, fmt.Sprintf("d%d", rnd.rng(1, 3)))
+		case x < 94 && !strings.HasPrefix(in.Kind, "S"):
+			in.Ops = append(in.Ops, fmt.Sprintf("r%d", caps[rnd.intn(len(caps))]))
+		case x < 96 && !strings.HasPrefix(in.Kind, "S"):
 			in.Ops = append(in.Ops, fmt.Sprintf("f%d", rnd.rng(1, 3)))
 		case strings.HasPrefix(in.Kind, "S"):
 			in.Ops = append(in.Ops, "s")
